@@ -190,6 +190,18 @@ def nested_write_ops(g, t, v, n, observe):
     return ops
 
 
+def zero_leaves(tr, gi=1, out=None):
+    """(gindex, depth) of the zero-subtree summaries (depth >= 1) of a tree S-expression"""
+    if out is None:
+        out = []
+    if tr[0] == 'Z' and int(tr[1]) >= 1:
+        out.append((gi, int(tr[1])))
+    elif tr[0] == 'P':
+        zero_leaves(tr[1], 2 * gi, out)
+        zero_leaves(tr[2], 2 * gi + 1, out)
+    return out
+
+
 def boundary_hist_cases(g, n):
     """histories that start right AFTER a chunk / subtree boundary with a non-zero last element (lengths
     256k+1, 512k+1 bits; per-chunk multiples + 1; 2^k + 1 composite elements) and pop back across it"""
@@ -661,6 +673,13 @@ class DecProp(Prop):
                 out.append(show(['dec', t, 'x', 'x', 'x']))
                 out.append(show(['dec', ['union', t, 'u16'], 'x', 'x00', 'x']))
                 out.append(show(['dec', ['union', 'none', t], 'x', 'x01', 'x']))
+        # scope 0 for a fixed table of types: the empty input at top level and as a union payload
+        for t in ['u8', 'bool', ['vec', 'u8', 1], ['vec', 'u8', 3], ['vec', 'u8', 32], ['vec', 'u8', 33], ['vec', 'u16', 2], ['vec', 'bool', 3],
+                  ['Bv', 4], ['bv', 9], ['cont', 'u8'], ['vec', ['cont', 'u8'], 2], ['list', 'u8', 3], ['Bl', 3], ['bl', 3],
+                  ['vec', ['list', 'u8', 2], 1], ['cont', ['list', 'u8', 2]], ['union', 'none', 'u8']]:
+            out.append(show(['dec', t, 'x', 'x', 'x']))
+            out.append(show(['dec', ['union', t, 'u16'], 'x', 'x00', 'x']))
+            out.append(show(['dec', ['cont', 'u8', ['union', 'none', t]], 'x', 'x070500000001', 'x']))
         # bitfield edits: every padding bit of a bitvector's last byte, delimiter edits of a bitlist,
         # at top level and as a field between other fields
         for _ in range(max(4, n // 60)):
@@ -1194,6 +1213,16 @@ class C07(Prop):
                         seq.append(['get', gi])
                     else:
                         seq.append(['set', gi, r.choice([0, 1, 1]), g.tree(r.choice([0, 0, 1]), 0.5)])
+                cmds.append(['vseq'] + seq)
+            zs = zero_leaves(tr)
+            if zs and r.random() < 0.6:
+                # a read that fails BELOW a zero-subtree summary, then an expanding write through the same summary
+                z, d = r.choice(zs)
+                k = r.randint(1, 3)
+                j = r.randint(1, max(d, 1))
+                seq = [['get', (z << k) | r.randrange(1 << k)],
+                       ['set', (z << j) | r.randrange(1 << j), 1, g.tree(0, 0.0)],
+                       ['get', z], ['set', (z << j) | r.randrange(1 << j), r.choice([0, 1]), g.tree(r.choice([0, 1]), 0.3)]]
                 cmds.append(['vseq'] + seq)
             out.append(show(['tree', tr] + cmds))
         if tier == 'thorough':
